@@ -148,6 +148,17 @@ def prim_compare(name, a, b):
         eqs = [prim_compare("eq", x, y) for x, y in zip(a.items, b.items)]
         e = z3.And(eqs) if eqs else z3.BoolVal(True)
         return e if name == "eq" else z3.Not(e)
+    if isinstance(a, VTuple) and isinstance(b, VTuple) and name in ("lt", "le", "gt", "ge"):
+        # lexicographic order on equal-length tuples
+        if len(a.items) != len(b.items):
+            raise Unsupported("ordering of tuples of different length")
+        if not a.items:
+            return z3.BoolVal(name in ("le", "ge"))
+        strict = "lt" if name in ("lt", "le") else "gt"
+        head = prim_compare(strict, a.items[0], b.items[0])
+        heq = prim_compare("eq", a.items[0], b.items[0])
+        rest = prim_compare(name, VTuple(a.items[1:]), VTuple(b.items[1:]))
+        return z3.Or(head, z3.And(heq, rest))
     if isinstance(a, VTuple) != isinstance(b, VTuple) and name in ("eq", "ne") and is_prim(a) and is_prim(b) \
             and not isinstance(a, VU) and not isinstance(b, VU):
         return z3.BoolVal(name == "ne")
